@@ -216,12 +216,19 @@ class XL:
             if n in ('numpy.sum', 'numpy.max', 'numpy.amax') and args and isinstance(args[0], P):
                 ax = kw.get('axis', args[1] if len(args) > 1 else None)
                 kd = kw.get('keepdims', False)
+                if ax is None and len(args) == 1:
+                    # reduction over the whole array: a scalar, constant along every axis
+                    name = '%s{%s}' % ('gsum' if n == 'numpy.sum' else 'gmax', xl.norm(args[0]).canon())
+                    xl.AC.add(name)
+                    return P.atom(name)
                 if ax is None or kd is not True:
                     return NotImplemented
                 return xl.sum(args[0]) if n == 'numpy.sum' else xl.axis_max(args[0])
             if n in ('numpy.maximum', 'numpy.minimum') and len(args) == 2:
                 a = sorted((as_p(x) for x in args), key=lambda x: x.canon())
                 return xl.opaque(n.split('.')[-1], *a)
+            if n == 'numpy.where' and len(args) == 3 and isinstance(args[0], P) and all(isinstance(x, (P, int, float)) for x in args[1:]):
+                return as_p(args[1]) * args[0] + as_p(args[2]) * (1 - args[0])
             if n == 'numpy.where' and len(args) == 3 and args[0] is False:
                 return args[2]
             if n == 'numpy.where' and len(args) == 3 and args[0] is True:
@@ -232,5 +239,8 @@ class XL:
             # elementwise comparisons of arrays with a clamp constant select a measure-zero region: the generic branch is evaluated
             if isinstance(a, P) and isinstance(b, (P, int, float)) and not isinstance(b, bool) and not a.is_const() and isinstance(op, (ast.Eq,)) and compare_false:
                 return False
+            if isinstance(a, P) and isinstance(b, (P, int, float)) and not isinstance(b, bool) and not a.is_const() and isinstance(op, (ast.Gt, ast.GtE, ast.Lt, ast.LtE)):
+                # an elementwise ordering test of arrays is data (an indicator), not a decision
+                return P.atom('ind{%s %s %s}' % (xl.norm(a).canon(), type(op).__name__, as_p(b).canon()))
             return NotImplemented
         return call_hook, compare_hook
